@@ -211,4 +211,21 @@ Definition lp_exact (prefs : list (list N)) (axis : list N) : option (list Q * l
       Some (firstn n env', combine axis (skipn n env'))
   end.
 
-Definition eucl_algo_exact := eucl_algo lp_exact.
+(* boolean test of the LP constraints (Proofs/EuclidAlgo.v: lp_sat_b_correct) *)
+Definition posq (xs : list (N * Q)) (c : N) : Q := match apos_lookup xs c with Some q => q | None => 0 end.
+Definition lp_sat_b (prefs : list (list N)) (axis : list N) (vs : list Q) (xs : list (N * Q)) : bool :=
+  forallb (fun ab => Qle_bool (posq xs (fst ab) + 1) (posq xs (snd ab))) (ordered_pairs axis)
+  && forallb2 (fun p r => forallb (fun ab => if before r (fst ab) (snd ab)
+                                              then Qle_bool (2 * p + 2) (posq xs (fst ab) + posq xs (snd ab))
+                                              else Qle_bool (posq xs (fst ab) + posq xs (snd ab) + 2) (2 * p))
+                                   (ordered_pairs axis)) vs prefs.
+
+(* the instance used by the extracted mirror: the exact solver's point is accepted only if it passes the test, so the
+   hypothesis of eucl_algo_sound holds for it unconditionally (lp_checked_sound) *)
+Definition lp_checked (prefs : list (list N)) (axis : list N) : option (list Q * list (N * Q)) :=
+  match lp_exact prefs axis with
+  | Some (vs, xs) => if lp_sat_b prefs axis vs xs then Some (vs, xs) else None
+  | None => None
+  end.
+
+Definition eucl_algo_exact := eucl_algo lp_checked.
